@@ -11,6 +11,8 @@
     strictly increasing, start at `x0` and do not pass the end of the last step; `SolOutM.runMode2_backward`
     (Proofs/SolOutMonoBack.lean) is the mirror image for `xend < x0` (strictly decreasing, never below the last step end).  The non-monotone samples repaired in 3991143 were a failure of exactly this invariant.
   * `hSolve_protocol` (C19) : the accepted points form a chain from `x0`.
+  * `rk23_landing_stage_at_xend`, `rk4_landing_stage_at_xend` : on the landing step the last stage of RK23 / RK4 is evaluated at
+    `xend` itself (every arithmetic; before the repair it was `x + (xend − x)`, one ulp beyond xend for some spans).
   * `rowsum_*` (C02): stage times are `x + c_j h` with `0 ≤ c_j ≤ 1`, hence inside the step.
   RK23/RK4 landing, Radau/BDF, and the handler's sample bookkeeping are covered by co-simulation and the interval
   monitor (which found and led to the repair of eight defects, see known_findings.json).
@@ -65,4 +67,20 @@ theorem c03_success_is_xend_hairer {σ : Type} (P : HParams α n) (Kn : HKernel 
     · injection heq with heq
       exact hLoop_success_at_xend P Kn f ob fuel s (by rw [← heq]) r h hs
 
+end Ctl
+
+namespace Ctl
+variable {α : Type} [Num α] {n : Nat}
+
+/-- **C03, evaluation times on the landing step (RK23, RK4; every arithmetic).**  The last stage of a step that lands on
+    `xend` is evaluated at `xend` itself — not at `x + (xend − x)`, which binary64 can place one ulp beyond `xend`. -/
+theorem rk23_landing_stage_at_xend (f : Nat → α → Vector α n → Vector α n) (y k1 : Vector α n) (x h xend : α) :
+    ((Gen.Rk23.stages (f := f) (y := y) (h := h) (k1 := k1) (x := x) (last := true) (xend := xend)).calls[2]?).map (·.1) = some xend
+    ∧ (Gen.Rk23.stages (f := f) (y := y) (h := h) (k1 := k1) (x := x) (last := true) (xend := xend)).xph = xend := by
+  simp [Gen.Rk23.stages]
+
+theorem rk4_landing_stage_at_xend (f : Nat → α → Vector α n → Vector α n) (y k1 : Vector α n) (x h xend : α) :
+    ((Gen.Rk4.stages (f := f) (y := y) (h := h) (k1 := k1) (x := x) (last := true) (xend := xend)).calls[2]?).map (·.1) = some xend
+    ∧ (Gen.Rk4.stages (f := f) (y := y) (h := h) (k1 := k1) (x := x) (last := true) (xend := xend)).xph = xend := by
+  simp [Gen.Rk4.stages]
 end Ctl
